@@ -129,6 +129,57 @@ Definition run_machine (fs : list F) : list (list M) * list M * bool :=
 Definition emitted (r : list (list M) * list M * bool) : list M :=
   let '(outs, fl, _) := r in concat outs ++ fl.
 
+(* ---- several passes over ONE iterator object.  __iter__ starts with self._clear_cache() iff the source says so
+   (Gen: iter_clears_at_start); a pass that is abandoned (generator dropped after its k-th yield) leaves the
+   buffers as they are at that yield; a pass that runs to the end clears them (Gen: iter_clears_at_end). *)
+Definition cleared : state := mkState [] clear_cache_counter.
+Definition start_state (st : state) : state := if iter_clears_at_start then cleared else st.
+
+(* one complete pass on an object whose buffers currently hold st *)
+Definition run_machine_from (st : state) (fs : list F) : list (list M) * list M * bool :=
+  let '(outs, st', ok) := run_from (start_state st) fs in (outs, if ok then flush st' else [], ok).
+
+(* buffers after the k-th pop-and-yield (1 <= k <= number of ejectable molecules) of one ejection *)
+Fixpoint geject_upto (k : nat) (p : M -> bool) (gs : list (Z * list M)) : list (Z * list M) :=
+  match gs with
+  | [] => []
+  | (key, l) :: gs' =>
+      let js := to_pop p 0 l in
+      if Nat.ltb (length js) k
+      then (key, snd (fst (eject pidx 0 js l))) :: geject_upto (k - length js) p gs'
+      else (key, snd (fst (eject pidx 0 (firstn k js) l))) :: gs'
+  end.
+
+Definition n_ejectable (p : M -> bool) (gs : list (Z * list M)) : nat :=
+  fold_right (fun g acc => (length (to_pop p 0 (snd g)) + acc)%nat) O gs.
+
+(* state of the object when the pass over fs, started in state st, is dropped right after its k-th yield (k >= 1);
+   if the pass yields fewer than k molecules it completes *)
+Fixpoint state_upto (k : nat) (st : state) (fs : list F) : state :=
+  match fs with
+  | [] => if Nat.leb k (length (flush st)) then st else (if iter_clears_at_end then cleared else st)
+  | f :: fs' =>
+      if negb (validf f) then
+        if yield_invalid then (if Nat.eqb k 1 then st else state_upto (k - 1) st fs') else state_upto k st fs'
+      else
+        let gs1 := gplace f (hashf f) (st_groups st) in
+        let ctr1 := st_ctr st + 1 in
+        if eject_due has_every ctr1 every_val then
+          if nochrom f then state_upto k (mkState gs1 ctr1) fs'
+          else let n := n_ejectable (yieldable f) gs1 in
+               if Nat.leb k n then mkState (geject_upto k (yieldable f) gs1) 0
+               else let '(_, gs2, _) := geject (yieldable f) gs1 in state_upto (k - n) (mkState gs2 0) fs'
+        else state_upto k (mkState gs1 ctr1) fs'
+  end.
+
+(* a pass abandoned after k yields (k = 0: the generator was created but never advanced: nothing ran) *)
+Definition abandon (k : nat) (st : state) (fs : list F) : state :=
+  match k with O => st | _ => state_upto k (start_state st) fs end.
+
+(* object states after each abandoned pass of a history *)
+Fixpoint history_states (ks : list nat) (st : state) (fs : list F) : list state :=
+  match ks with [] => [] | k :: ks' => let st1 := abandon k st fs in st1 :: history_states ks' st1 fs end.
+
 (* ---- pooling_method 0: the same loop over ONE flat list self.molecules (no dict) *)
 Record fstate := mkFState { fs_mols : list M; fs_ctr : Z }.
 
@@ -153,6 +204,10 @@ Fixpoint frun_from (st : fstate) (fs : list F) : list (list M) * fstate * bool :
 
 Definition frun_machine (fs : list F) : list (list M) * list M * bool :=
   let '(outs, st, ok) := frun_from (mkFState [] 0) fs in (outs, if ok then fs_mols st else [], ok).
+
+Definition fstart_state (st : fstate) : fstate := if iter_clears_at_start then mkFState [] clear_cache_counter else st.
+Definition frun_machine_from (st : fstate) (fs : list F) : list (list M) * list M * bool :=
+  let '(outs, st', ok) := frun_from (fstart_state st) fs in (outs, if ok then fs_mols st' else [], ok).
 End Machine.
 
 (* ------------------------------------------------------------------ Fragment and Molecule *)
@@ -244,6 +299,29 @@ Definition runC (c : cfg) (fs : list frag) : list (list mol) * list mol * bool :
     run_machine frag mol new_mol add_mol (match_grouped (c_radius c) (c_hd c)) f_hash f_valid nochrom
                 (yieldable (c_cache c)) pop_index_grouped (c_every c) (c_yield_invalid c) fs.
 
+(* a complete pass over an iterator object whose buffers (dict in insertion order / flat list) and counter hold
+   whatever earlier, possibly abandoned, passes left there *)
+Definition runC_after (c : cfg) (buf : list (Z * list mol)) (ctr : Z) (fs : list frag)
+  : list (list mol) * list mol * bool :=
+  if c_pooling c =? 0 then
+    frun_machine_from frag mol new_mol add_mol (match_flat (c_radius c) (c_hd c)) f_valid nochrom
+                 (yieldable (c_cache c)) pop_index_flat (c_every c) (c_yield_invalid c)
+                 (mkFState mol (concat (map snd buf)) ctr) fs
+  else
+    run_machine_from frag mol new_mol add_mol (match_grouped (c_radius c) (c_hd c)) f_hash f_valid nochrom
+                (yieldable (c_cache c)) pop_index_grouped (c_every c) (c_yield_invalid c)
+                (mkState mol buf ctr) fs.
+
+(* object states along a history of abandoned passes (both pooling methods through the dict machine; pooling 0
+   uses the single key 0, see frun_machine_equiv) *)
+Definition historyC (c : cfg) (ks : list nat) (fs : list frag) : list (state mol) :=
+  if c_pooling c =? 0 then
+    history_states frag mol new_mol add_mol (match_flat (c_radius c) (c_hd c)) (fun _ => 0) f_valid nochrom
+                   (yieldable (c_cache c)) pop_index_flat (c_every c) (c_yield_invalid c) ks (init mol) fs
+  else
+    history_states frag mol new_mol add_mol (match_grouped (c_radius c) (c_hd c)) f_hash f_valid nochrom
+                   (yieldable (c_cache c)) pop_index_grouped (c_every c) (c_yield_invalid c) ks (init mol) fs.
+
 (* the match rule of the configuration (what "a later fragment could still join" means) *)
 Definition matchC (c : cfg) : mol -> frag -> bool :=
   if c_pooling c =? 0 then match_flat (c_radius c) (c_hd c) else match_grouped (c_radius c) (c_hd c).
@@ -297,6 +375,10 @@ Definition enc_mol (m : mol) : Val :=
 Definition enc_run (r : list (list mol) * list mol * bool) : Val :=
   let '(outs, fl, ok) := r in VL [VL (map (fun o => VL (map enc_mol o)) outs); VL (map enc_mol fl); ofB ok].
 
+Definition enc_state (st : state mol) : Val :=
+  VL [VL (map (fun g => VL [VZ (fst g); VL (map (fun m => ofZs (map f_id (m_frags m))) (snd g))]) (st_groups mol st));
+      VZ (st_ctr mol st)].
+
 (* input: [cfg; fragments; L; lag]
    mode 0: run; mode 1: precondition;
    mode 2: [wanted fragment ids; ids of all fragments of the yielded molecules] -> emit-once specification;
@@ -307,5 +389,11 @@ Definition run_C07 (mode : Z) (v : Val) : Val :=
   | 1 => ofB (preb (getZ (nthV 2 v)) (getZ (nthV 3 v)) (dec_cfg (nthV 0 v)) (map dec_frag (getL (nthV 1 v))))
   | 2 => ofB (same_multiset_z (getZs (nthV 0 v)) (getZs (nthV 1 v)))
   | 3 => ofB (same_multiset_zs (map getZs (getL (nthV 0 v))) (map getZs (getL (nthV 1 v))))
+  | 4 => (* [cfg; fragments; ks]: object state after each abandoned pass, then the complete pass *)
+         let c := dec_cfg (nthV 0 v) in
+         let fs := map dec_frag (getL (nthV 1 v)) in
+         let sts := historyC c (map Z.to_nat (getZs (nthV 2 v))) fs in
+         let last_st := last sts (init mol) in
+         VL [VL (map enc_state sts); enc_run (runC_after c (st_groups mol last_st) (st_ctr mol last_st) fs)]
   | _ => bad
   end.
